@@ -43,6 +43,11 @@ def run(sh):
         seed = core.stable_int(sh.seed, 'C08', 'fanout', i) % (1 << 40)
         spec = modelgen.generate_fanout(seed, pol[i % 4])
         engine_line.run_spec(sh, 'C08', spec, MONITORS, lambda f: f.get('idle_judged', 0) > 0)
+    # a station taken out of the line and put back: its gate leads nowhere meanwhile and refuses what it is offered
+    for i in sh.share(max(32, n // 5)):
+        seed = core.stable_int(sh.seed, 'C08', 'deadend', i) % (1 << 40)
+        engine_line.run_spec(sh, 'C08', modelgen.generate_dead_end(seed, pol[i % 4]), MONITORS,
+                             lambda f: f.get('histories', 0) > 0, prefix='dead_end_')
     # the same with one-decimal cycle times: idle-since instants one unit in the last place apart
     for i in sh.share(n // 4):
         seed = core.stable_int(sh.seed, 'C08', 'fanout_decimal', i) % (1 << 40)
